@@ -35,3 +35,12 @@ CLAIMED["C11"] = (
     "Trusted: A-enc, A-smt, A-struct (from_bytes(to_bytes(v)) = v positional-notation identities), layouts outside the enumerated set "
     "(symbolic offset/width arithmetic is not decided by z3: stated in DESIGN 7 C11).",
     "DESIGN.md 7 C11")
+CLAIMED["C19"] = (
+    "Structural induction over derivations: each grammar action of the BD parser that computes a value (binary/unary arithmetic, shifts, "
+    "bitwise, size suffixes, comparisons, logical operators, parentheses, address ranges) is a unit located by its production string and "
+    "proved to return what the language semantics prescribe for all operand values; unsupported constructs (sizeof, if/else) are proved to "
+    "raise; the precedence table is a data obligation against the documented C-like table; SB21Helper._fill_memory is proved to produce one "
+    "FILL command with the given address, the whole range length and the pattern as written. Lexing and the LALR automaton are external (sly).",
+    "Trusted: A-sly (sly builds the parser the grammar strings and precedence denote and calls exactly the action of each production), A-enc, "
+    "A-smt. Symbol tables, sources, key blobs and the remaining statement actions are covered by the bounded seeded-program sweep only.",
+    "DESIGN.md 7 C19")
